@@ -14,6 +14,7 @@ assert PROJ % L == 1 and PROJ % 8 == 0
 
 class C10(CurveCheck):
     pid = "C10"
+    profiles = ("release", "dev")      # dev = overflow checks and debug assertions on (index / position arithmetic)
     rule = ("derive (KeyGenerator::from_key(..).rv and from_random(..).rv): scalars {0,1,2,7,8,l-1,l-2,(l-1)/2,random} x "
             "points B'+T for ALL eight small-order points T (B' random prime-order), the eight pure torsion points, "
             "G and random prime-order points; onetime (one_time_key, get_rvn_scalar, check, P - Hs*G) for output indices "
